@@ -65,7 +65,10 @@ def showLim (L : Lim) (q : Rat) : String :=
   if q = L.tmax then "TMAX" else if q = L.tlowest then "TLOWEST" else showRat q
 
 def showAgg (L : Lim) : Option Agg → String
-  | some a => s!"count={a.count} mean={showRat a.mean} nvar={showRat a.nvar} min={showLim L a.min} max={showLim L a.max}"
+  | some a =>
+    let v (d : Nat) := match a.variance d with | some q => showRat q | none => "nan"
+    let sp := if a.count = 0 then "-" else showRat a.span
+    s!"count={a.count} mean={showRat a.mean} nvar={showRat a.nvar} min={showLim L a.min} max={showLim L a.max} var0={v 0} var1={v 1} span={sp}"
   | none => "nan"
 
 def reg (s : String) : Option Nat :=
